@@ -325,6 +325,8 @@ DAGS = {
               jl={'1': [], '2': [1], '3': [1, 2], '4': [1, 2]}, jh={'1': [3], '2': [2, 4], '3': [3, 4]}, jbad=[]),
     'H': dict(hashes='{1,2,3,4}', links='LinksDef', heads='HeadsA', local='{2,3,4}', bad='{}', abort='{}', syncpass='{}', flaky='{1,2,3}',
               jl={'1': [], '2': [1], '3': [1, 2], '4': [1, 2]}, jh={'1': [3], '2': [2, 4], '3': [3, 4]}, jbad=[]),
+    'I': dict(hashes='{1,2,3,4,5}', links='LinksI', heads='HeadsA', local='{2,3,4}', bad='{}', abort='{}', syncpass='{}', ghost='{5}',
+              jl={'1': [], '2': [1], '3': [1, 2], '4': [2, 5], '5': []}, jh={'1': [3], '2': [2, 4], '3': [3, 4]}, jbad=[]),
     'F': dict(hashes='{1,2,3,4}', links='LinksDef', heads='HeadsA', local='{2,3,4}', bad='{}', abort='{}', syncpass='{}', cached='{1,2,3}',
               jl={'1': [], '2': [1], '3': [1, 2], '4': [1, 2]}, jh={'1': [3], '2': [2, 4], '3': [3, 4]}, jbad=[]),
     'E': dict(hashes='{1,2,3,4,5}', links='LinksB', heads='HeadsB', local='{3,4}', bad='{2,5}', abort='{}', syncpass='{}',
@@ -336,13 +338,13 @@ DAGS = {
 }
 
 
-def rp_cfg(name, spec, dag, conc, cancels, pinned, invs='NoWedge NoHang SemOK QueueMatchesWorkers NoDeadWorkers', maxw=10, forget=True):
+def rp_cfg(name, spec, dag, conc, cancels, pinned, invs='NoWedge NoHang SemOK QueueMatchesWorkers NoDeadWorkers', maxw=10, forget=True, bounded=True):
     d = DAGS[dag]
     return (name, '''SPECIFICATION %s
-CONSTANTS Hash = %s  Links <- %s  Local = %s  Bad = %s  SyncPass = %s  Cached = %s  Flaky = %s  Forget = %s  Abort = %s  NReq = 3  ReqHeads <- %s  Conc = %d  MaxCancel = %d  MaxW = %d  Pinned = %s
+CONSTANTS Hash = %s  Links <- %s  Local = %s  Bad = %s  SyncPass = %s  Cached = %s  Flaky = %s  Forget = %s  Ghost = %s  Bounded = %s  Abort = %s  NReq = 3  ReqHeads <- %s  Conc = %d  MaxCancel = %d  MaxW = %d  Pinned = %s
 INVARIANTS %s
 CHECK_DEADLOCK FALSE
-''' % (spec, d['hashes'], d['links'], d['local'], d['bad'], d['syncpass'], d.get('cached', '{}'), d.get('flaky', '{}'), 'TRUE' if forget else 'FALSE', d['abort'], d['heads'], conc, cancels, maxw, 'TRUE' if pinned else 'FALSE', invs))
+''' % (spec, d['hashes'], d['links'], d['local'], d['bad'], d['syncpass'], d.get('cached', '{}'), d.get('flaky', '{}'), 'TRUE' if forget else 'FALSE', d.get('ghost', '{}'), 'TRUE' if bounded else 'FALSE', d['abort'], d['heads'], conc, cancels, maxw, 'TRUE' if pinned else 'FALSE', invs))
 
 
 RP_KINDS = {'C16': {'replicated-event'}, 'C11': {'wedged', 'missing', 'view-stale'}, 'C10': {'wedged', 'missing', 'bad-merged', 'view-stale'}}
@@ -358,7 +360,10 @@ def run_replicator(ck, prop, tier, dag, cancels, n_sim, depth):
         r1 = vlib.tlc_check('MCReplicator.tla', rp_cfg('Replicator.%s.c1.cfg' % dag, 'Spec', dag, 1, cancels, False), '%s-rp-%s-c1' % (prop, dag), timeout=900)
         ck.require_model_ok(r1, 'Replicator dag %s, concurrency 1' % dag)
     bs, mutants = [], []
-    if dag in 'GH':
+    if dag == 'I':
+        m = vlib.tlc_check('SimReplicator.tla', rp_cfg('Replicator.%s.pinned.cfg' % dag, 'SimSpec', dag, 2, cancels, False, invs='NoWedge', bounded=False), '%s-rp-%s-pinned' % (prop, dag))
+        ck.add_tlc(m, 'Replicator whose fetches are not bounded (mutant specification) dag %s' % dag)
+    elif dag in 'GH':
         m = vlib.tlc_check('SimReplicator.tla', rp_cfg('Replicator.%s.pinned.cfg' % dag, 'SimSpec', dag, 2, cancels, False, invs='NoWedge', forget=False), '%s-rp-%s-pinned' % (prop, dag))
         ck.add_tlc(m, 'Replicator that records failed fetches as fetched (mutant specification) dag %s' % dag)
     else:
@@ -377,9 +382,9 @@ def run_replicator(ck, prop, tier, dag, cancels, n_sim, depth):
         for st in b['steps']:
             pass
         acts = [s['action'] for s in b['steps']]
-        if ('Cancel' in acts) or (dag in 'BCDE' and 'JoinBatch' in acts) or (dag == 'F' and 'StoreLoad' in acts) or (dag in 'GH' and 'SFetchErr' in acts):
+        if ('Cancel' in acts) or (dag in 'BCDE' and 'JoinBatch' in acts) or (dag == 'F' and 'StoreLoad' in acts) or (dag in 'GH' and 'SFetchErr' in acts) or (dag == 'I' and 'SFetchTimeout' in acts):
             ck.distinct.add(vlib.beh_signature(b))
-    inp = {'property': prop, 'seed': SEED, 'dag': dag, 'req_heads': d['jh'], 'nreq': 3, 'bad': d['jbad'], 'abort': [6] if dag == 'C' else [], 'links': d['jl'],
+    inp = {'property': prop, 'seed': SEED, 'dag': dag, 'req_heads': d['jh'], 'nreq': 3, 'bad': d['jbad'], 'abort': [6] if dag == 'C' else [], 'ghost': [5] if dag == 'I' else [], 'links': d['jl'],
            'behaviours': bs, 'mutant': mutants, 'long_outage_s': 25 if (thorough and prop == 'C11') else 0}
     res = vlib.run_vh('replicator', inp, tag='%s-rp-%s' % (prop, dag), timeout=600 if tier == 'quick' else 3000)
     allv = res.get('violations', [])
@@ -422,6 +427,8 @@ def c11(prop, tier):
     run_replicator(ck, prop, tier, 'C', 1, 40 if thorough else 6, 40)
     # block reads that fail while a request is served (constant Flaky): the hash stays wanted and is queued again (DAG G / H)
     run_replicator(ck, prop, tier, 'H' if thorough else 'G', 0, 60 if thorough else 10, 40)
+    # a request that gets no answer: a head links to a block nobody provides (constants Ghost, Bounded; DAG I)
+    run_replicator(ck, prop, tier, 'I', 1, 60 if thorough else 8, 44)
     return ck.finish()
 
 
@@ -438,4 +445,7 @@ def c10(prop, tier):
     run_replicator(ck, prop, tier, 'D', 0, 120 if thorough else 14, 44)
     # ... and the request tables of DAG B with the refused head 2 forged: it names the authorised writer of entries 1, 3, 4 as its author
     run_replicator(ck, prop, tier, 'E', 0, 60 if thorough else 8, 40)
+    if thorough:
+        # ... and with a head that links to a block nobody provides (DAG I)
+        run_replicator(ck, prop, tier, 'I', 0, 40, 44)
     return ck.finish()
